@@ -1,9 +1,64 @@
 import Pandora.Drv.Util
+import Pandora.Drv.C08
+import Pandora.Model.C14
+import Pandora.Spec.C14
 
 namespace Pandora.Drv.C14
-open Pandora.Drv
+open Pandora.Drv Pandora.Model.C08 Pandora.Model.C14
 
-/-- stub: replaced when the property's model driver is written -/
-def handle : Handler := fun _ _ => ("-", "skip:not-built")
+structure Line where
+  kind : Kind
+  tags : List String
+  cases : List String
+  b : Bounds
+  cap : Nat
+  cell : Spec.C14.Cell
+
+def parseLine (kv : List (String × String)) : Option Line := do
+  let kind ← C08.parseKind (getS kv "fmt")
+  let limit ← getN? kv "limit"
+  let passes ← getN? kv "passes"
+  let cap ← getN? kv "cap"
+  let tags := splitList (getS kv "tags")
+  let cs := getS kv "cases"
+  let cases := if cs == "-" then [] else splitList cs
+  pure { kind, tags, cases, b := ⟨limit, passes⟩, cap, cell := { tags, cases, limit, passes, cap } }
+
+/-- what the harness would observe on one side of the model -/
+def sideOf (cap : Nat) : Option (Outcome Entry) → Spec.C14.Side
+  | none => { seq := [], cut := false, run := .noreturn, end_ := .spinning }
+  | some o => { seq := o.delivered.map (·.id), cut := decide (0 < cap ∧ cap ≤ o.delivered.length), run := C08.classOf o.run,
+                end_ := if o.sinkClosed then .closed else .blocked }
+
+def modelSide (l : Line) (preload : Bool) : Spec.C14.Side :=
+  sideOf l.cap (run l.kind preload l.tags l.cases l.b (if l.cap = 0 then none else some l.cap))
+
+def showSeq (s : List Nat) : String := if s.isEmpty then "-" else String.intercalate "," (s.map toString)
+
+/-- whether a run that never returns keeps reading the file (`spinning`) or not (`blocked`) is a diagnosis of the
+watchdog, not predicted by the model: echoed from the implementation's observation -/
+def showSide (p : String) (x : Spec.C14.Side) (implEnd : String) : String :=
+  let e := if x.run == .noreturn then implEnd else C08.endName x.end_
+  s!"{p}.seq={showSeq x.seq} {p}.cut={if x.cut then 1 else 0} {p}.run={C08.runClassName x.run} {p}.end={e}"
+
+def modelObs (l : Line) (ikv : List (String × String)) : String :=
+  s!"{showSide "s" (modelSide l false) (getS ikv "s.end" "spinning")} {showSide "p" (modelSide l true) (getS ikv "p.end" "spinning")} tagsok={getS ikv "tagsok" "1"}"
+
+def parseSeq (s : String) : Option (List Nat) := if s == "-" then some [] else parseNats s
+
+def parseSide (kv : List (String × String)) (p : String) : Option Spec.C14.Side := do
+  pure { seq := ← parseSeq (getS kv (p ++ ".seq")), cut := getS kv (p ++ ".cut") == "1",
+         run := C08.parseRun (getS kv (p ++ ".run")), end_ := ← C08.parseEnd (getS kv (p ++ ".end")) }
+
+def handle : Handler := fun input impl =>
+  match parseLine (parseKV input) with
+  | none => ("-", "fail:driver:unparsable input")
+  | some l =>
+    if l.tags.isEmpty then ("-", "skip:empty-file") else
+    let ikv := parseKV impl
+    match parseSide ikv "s", parseSide ikv "p" with
+    | some s, some p =>
+      (modelObs l ikv, Spec.C14.judge l.cell { s, p, tagsOk := getS ikv "tagsok" == "1" })
+    | _, _ => (modelObs l [], s!"fail:crash:{impl.take 160}")
 
 end Pandora.Drv.C14
